@@ -1,11 +1,204 @@
-//! C04 — not built yet.
+//! C04 — automaton search (with and without states) over built FSTs, with bounds.
+use crate::c03::{bound_universe, fmt_calls, parse_calls};
 use crate::common::*;
+use crate::core::*;
+use crate::dynaut::*;
+use fst::automaton::{AlwaysMatch, Automaton, Str, Subsequence};
+use fst::raw::Fst;
+use fst::{IntoStreamer, Streamer};
+
 pub struct P;
-impl Prop for P {
-    fn generate(&self, _tier: Tier, _rng: &mut Rng, _stats: &mut Stats) -> Vec<String> {
-        vec![]
+
+/// random table DFA with up to `maxn` states over 2 classes; hints randomly weakened but sound
+fn random_table(rng: &mut Rng, maxn: usize) -> Table {
+    let n = rng.range(1, maxn);
+    let ncls = 2;
+    let next: Vec<usize> = (0..n * ncls).map(|_| rng.below(n as u64) as usize).collect();
+    let m: Vec<bool> = (0..n).map(|_| rng.chance(1, 3)).collect();
+    let mut t = Table { ncls, next, m, c: vec![true; n], w: vec![false; n], start: rng.below(n as u64) as usize };
+    let (dead, full) = t.dead_and_full();
+    for i in 0..n {
+        if dead[i] && rng.chance(2, 3) {
+            t.c[i] = false;
+        }
+        if full[i] && rng.chance(2, 3) {
+            t.w[i] = true;
+        }
     }
-    fn execute(&self, _case: &str) -> String {
-        String::new()
+    t
+}
+
+fn sample_ranges(bs: &[Vec<u8>], rng: &mut Rng, n: usize) -> Vec<Vec<(u8, Vec<u8>)>> {
+    let mut rs = vec![vec![]];
+    for _ in 0..n {
+        let mut c = vec![];
+        if rng.chance(2, 3) {
+            c.push((rng.below(2) as u8, rng.pick(bs).clone()));
+        }
+        if rng.chance(2, 3) {
+            c.push((2 + rng.below(2) as u8, rng.pick(bs).clone()));
+        }
+        rs.push(c);
+    }
+    rs
+}
+
+fn case(ops: &[Op], e: &Exp, ws: bool, rs: &[Vec<(u8, Vec<u8>)>]) -> String {
+    format!("search {} ; {} ; {} ; {}", fmt_ops(ops), e.token(), if ws { "ws" } else { "nows" }, rs.iter().map(|c| fmt_calls(c)).collect::<Vec<_>>().join("/"))
+}
+
+impl Prop for P {
+    fn generate(&self, tier: Tier, rng: &mut Rng, stats: &mut Stats) -> Vec<String> {
+        let mut cases = vec![];
+        let u = universe(&[b'a', b'b'], 2);
+        let subs = subsets(&u);
+        let t1 = enum_tables(1, 2, rng, 1);
+        let t2 = enum_tables(2, 2, rng, 1);
+        let t3 = enum_tables(3, 2, rng, if tier == Tier::Quick { 60 } else { 6 });
+        stats.add("tables_1_2_state_exhaustive_with_all_sound_hints", (t1.len() + t2.len()) as u64);
+        stats.add("tables_3_state_sampled", t3.len() as u64);
+        let tables: Vec<Table> = t1.into_iter().chain(t2).chain(t3).collect();
+        let nsets = match tier { Tier::Quick => 24, Tier::Thorough => 128, Tier::Wide => 64 };
+        let mut bs = bound_universe(&u, rng, 64);
+        bs.push(b"c".to_vec());
+        for si in 0..nsets {
+            let ks = if nsets == 128 { subs[si].clone() } else { rng.pick(&subs).clone() };
+            let vals = value_pattern(1 + si % 5, ks.len(), rng);
+            let ops = map_ops(&with_values(&ks, &vals));
+            for t in &tables {
+                let rs = sample_ranges(&bs, rng, 6);
+                stats.add("searches", rs.len() as u64);
+                cases.push(case(&ops, &Exp::Tab(t.clone()), true, &rs));
+            }
+            stats.bump("small_scope_keysets");
+        }
+        // random DFAs up to 8 states, shipped automata and compositions, on deeper key sets
+        let lv = crate::c18::leaves(rng, &mut Stats::default(), Tier::Quick);
+        let nrand = match tier { Tier::Quick => 500, Tier::Thorough => 8000, Tier::Wide => 2000 };
+        for i in 0..nrand {
+            let ks = match i % 4 {
+                0 => random_keyset(rng, 40, 6),
+                _ => {
+                    // keys over {a,b,z} so that the shipped patterns have something to match
+                    let n = rng.range(0, 25);
+                    sort_dedup((0..n).map(|_| { let l = rng.range(0, 5); (0..l).map(|_| *rng.pick(&[b'a', b'b', b'z'])).collect() }).collect())
+                }
+            };
+            let vals = value_pattern(rng.below(NPATTERNS as u64) as usize, ks.len(), rng);
+            let ops = map_ops(&with_values(&ks, &vals));
+            let bs = bound_universe(&ks, rng, 30);
+            let rs = sample_ranges(&bs, rng, 5);
+            stats.add("searches", rs.len() as u64);
+            match i % 3 {
+                0 => {
+                    cases.push(case(&ops, &Exp::Tab(random_table(rng, 8)), true, &rs));
+                    stats.bump("random_dfa_upto8_weakened_hints");
+                }
+                1 => {
+                    let e = rng.pick(&lv).clone();
+                    cases.push(case(&ops, &e, true, &rs));
+                    stats.bump("shipped_leaf_with_state");
+                }
+                _ => {
+                    let d = rng.range(1, 3);
+                    let e = crate::c18::random_exp(rng, &lv, d);
+                    cases.push(case(&ops, &e, false, &rs));
+                    stats.bump(&format!("composition_depth_{}", d));
+                }
+            }
+        }
+        cases
+    }
+    fn nontrivial(&self, case: &str) -> bool {
+        case.contains(',') && case.contains('/')
+    }
+    fn execute(&self, case: &str) -> String {
+        let rest = &case["search ".len()..];
+        let parts: Vec<&str> = rest.split(';').map(|s| s.trim()).collect();
+        let ops = parse_ops(parts[0]);
+        let e = Exp::parse_str(parts[1]);
+        let ws = parts[2] == "ws";
+        let ranges: Vec<Vec<(u8, Vec<u8>)>> = parts[3].split('/').map(|r| parse_calls(r.trim())).collect();
+        let out = exec_build("extend", "raw_loop", 0, 10_000, 2, &ops);
+        let bytes = out.bytes.unwrap();
+        let f = Fst::new(bytes.clone()).unwrap();
+        let map = fst::Map::new(bytes.clone()).unwrap();
+        let mut x = String::from("ok");
+        let mut res = vec![];
+        macro_rules! with_state {
+            ($aut:expr, $fmt:expr) => {{
+                for calls in &ranges {
+                    let mut sb = f.search_with_state($aut);
+                    let mut pb = f.search($aut);
+                    for (k, b) in calls {
+                        sb = match k { 0 => sb.ge(b), 1 => sb.gt(b), 2 => sb.le(b), _ => sb.lt(b) };
+                        pb = match k { 0 => pb.ge(b), 1 => pb.gt(b), 2 => pb.le(b), _ => pb.lt(b) };
+                    }
+                    let mut st = sb.into_stream();
+                    let mut items = vec![];
+                    let mut plain = vec![];
+                    while let Some((k, v, s)) = st.next() {
+                        items.push(format!("{}:{}:{}", hex(k), v.value(), $fmt(&s)));
+                        plain.push((k.to_vec(), v.value()));
+                    }
+                    if pb.into_stream().into_byte_vec() != plain {
+                        x = format!("search and search_with_state disagree for {}", fmt_calls(calls));
+                    }
+                    res.push(if items.is_empty() { "_".to_string() } else { items.join(",") });
+                }
+            }};
+        }
+        if ws {
+            match &e {
+                Exp::Str(q) => {
+                    let s = String::from_utf8(q.clone()).unwrap();
+                    with_state!(Str::new(&s), |s: &Option<usize>| match s { Some(p) => format!("S{}", p), None => "N".to_string() })
+                }
+                Exp::Sub(q) => {
+                    let s = String::from_utf8(q.clone()).unwrap();
+                    with_state!(Subsequence::new(&s), |s: &usize| s.to_string())
+                }
+                Exp::Tab(t) => {
+                    with_state!(t.clone(), |s: &usize| s.to_string());
+                    // the result must not depend on how precise the hints are
+                    let mut weak = t.clone();
+                    weak.c = vec![true; t.nstates()];
+                    weak.w = vec![false; t.nstates()];
+                    for (ri, calls) in ranges.iter().enumerate() {
+                        let mut sb = f.search_with_state(weak.clone());
+                        for (k, b) in calls {
+                            sb = match k { 0 => sb.ge(b), 1 => sb.gt(b), 2 => sb.le(b), _ => sb.lt(b) };
+                        }
+                        let mut st = sb.into_stream();
+                        let mut items = vec![];
+                        while let Some((k, v, s)) = st.next() {
+                            items.push(format!("{}:{}:{}", hex(k), v.value(), s));
+                        }
+                        let got = if items.is_empty() { "_".to_string() } else { items.join(",") };
+                        if got != res[ri] {
+                            x = format!("result depends on hint precision for {}", fmt_calls(calls));
+                        }
+                    }
+                }
+                Exp::Always => with_state!(AlwaysMatch, |_: &()| "u".to_string()),
+                _ => panic!("ws on composite"),
+            }
+        } else {
+            for calls in &ranges {
+                let mut pb = f.search(e.build());
+                let mut mb = map.search(e.build());
+                for (k, b) in calls {
+                    pb = match k { 0 => pb.ge(b), 1 => pb.gt(b), 2 => pb.le(b), _ => pb.lt(b) };
+                    mb = match k { 0 => mb.ge(b), 1 => mb.gt(b), 2 => mb.le(b), _ => mb.lt(b) };
+                }
+                let got = pb.into_stream().into_byte_vec();
+                if mb.into_stream().into_byte_vec() != got {
+                    x = format!("Map::search disagrees with raw search for {}", fmt_calls(calls));
+                }
+                res.push(fmt_kvs(&got));
+            }
+        }
+        let s = res.join("/");
+        format!("S:{}\tM:{}\tX:{}", s, s, x)
     }
 }
